@@ -784,6 +784,7 @@ func execRun(plan *Plan, o execOpts) *runResult {
 	// prologue: shared subjects are parsed solo, before any task exists
 	for i, k := range plan.Shared {
 		sub := callEntry(int(k.Entry), pathOf(k), pool.inputs[k.Input].text)
+		sub.initSeqs()
 		r := &retained{sub: sub, task: -1, op: i, key: k, share: true}
 		r.h0 = structHash(sub.val, sub.err)
 		s.shared = append(s.shared, r)
